@@ -147,8 +147,8 @@ namespace Clipper2Lib {
   {
     int error_code = 0;
     CheckPrecisionRange(precision, error_code);
-    if (!delta) return paths;
     if (error_code) return PathsD();
+    if (!delta) return paths;
     const double scale = std::pow(10, precision);
     ClipperOffset clip_offset(miter_limit, arc_tolerance * scale);
     clip_offset.AddPaths(ScalePaths<int64_t,double>(paths, scale, error_code), jt, et);
